@@ -1368,6 +1368,9 @@ def _weighted_quantile(sorted_values, quantiles, weights):
   index_values = np.arange(len(sorted_values))
   quantiles_idx = np.interp(x=quantiles, xp=weighted_quantiles, fp=index_values)
   quantiles_idx = np.rint(quantiles_idx).astype(int)
+  # With leading zero weights several weighted quantiles equal 0 and np.interp
+  # returns the last of them: the 0-quantile is the first value.
+  quantiles_idx = np.where(np.asarray(quantiles) <= 0., 0, quantiles_idx)
 
   # Replace repeated quantile values with neighbouring values.
   unique_idx, first_use = np.unique(quantiles_idx, return_index=True)
